@@ -77,6 +77,7 @@ class Slot:
         self.rel = rel  # path of the grammar relative to the history directory
         self.kind = "absent"
         self.text = None
+        self.linked = False  # the grammar is a symbolic link to the shared file shared/common.ebnf
 
 
 def gen_history(seed, i, valid, tier):
@@ -95,10 +96,12 @@ def gen_history(seed, i, valid, tier):
     # the destination is a symbolic link to a file kept elsewhere (generated sources in another directory); process-per-run only
     cfg["dest_symlink"] = (not cfg["one_process"]) and rng.coin(120)
     if mode == "file":
-        slots = ["g0.ebnf"]
+        slots = [rng.choice(["g0.ebnf", "g0.ebnf", "g0.v2.ebnf"])]
     else:
-        # x/g.ebnf and y/g.ebnf share their file stem; .hidden.ebnf is an ordinary grammar for the walk
-        slots = rng.sample(["src/a.ebnf", "src/sub/b.ebnf", "src/c.ebnf", "src/x/g.ebnf", "src/y/g.ebnf", "src/.hidden.ebnf"], rng.range(1, 4))
+        # x/g.ebnf and y/g.ebnf share their file stem; .hidden.ebnf is an ordinary grammar for the walk; names with several
+        # dots next to their one-dot relatives (a.v2.ebnf -> a.v2.rs, not a.rs)
+        slots = rng.sample(["src/a.ebnf", "src/sub/b.ebnf", "src/c.ebnf", "src/x/g.ebnf", "src/y/g.ebnf", "src/.hidden.ebnf",
+                            "src/a.v2.ebnf", "src/c.d.e.ebnf", "src/sub/b.ebnf.ebnf"], rng.range(1, 4))
     cfg["slots"] = slots
     prefixes = PREFIXES_FORMAT if fmt else PREFIXES
     ops = []
@@ -111,7 +114,10 @@ def gen_history(seed, i, valid, tier):
     n = rng.range(3, 14)
     for _ in range(n):
         k = rng.weighted([("edit_valid", 22), ("edit_bad", 14), ("prefix", 18), ("delete", 8), ("damage", 5), ("run", 36)])
-        if k == "edit_valid":
+        if k == "edit_valid" and rng.coin(120):
+            # the grammar becomes a symbolic link to a file shared with other slots; editing it through one edits all
+            ops.append(["edit", rng.below(len(slots)), "shared", rng.below(len(valid)), rng.weighted([("now", 60), ("old", 25), ("same_as_destination", 15)])])
+        elif k == "edit_valid":
             # "old": content changes but the file looks older than the destination (cp -p, restored backup, renamed into place)
             ops.append(["edit", rng.below(len(slots)), "valid", rng.below(len(valid)), rng.weighted([("now", 50), ("old", 25), ("future", 10), ("same_as_destination", 15)])])
         elif k == "edit_bad":
@@ -277,7 +283,15 @@ def execute_history(cfg, d, valid, scratch, stats=None):
             if one_process and kind == "eio":
                 kind = "utf8"  # injected I/O errors are per process; not used inside a one-process history
             sl.kind = kind
-            if kind == "valid":
+            sl.linked = False
+            if kind == "shared":
+                sl.kind = kind = "valid"
+                sl.linked = True
+                sl.text = valid[op[3] % len(valid)]
+                for other in slots:
+                    if other.linked:
+                        other.text = sl.text
+            elif kind == "valid":
                 sl.text = valid[op[3] % len(valid)]
             elif kind == "syntax":
                 pool_syn = INVALID_SYNTAX + tricky_invalid()
@@ -300,12 +314,23 @@ def execute_history(cfg, d, valid, scratch, stats=None):
                     script.append("MKDIR\t%s" % p)
                 else:
                     os.makedirs(p)
+            elif sl.linked:
+                mt = GRAMMAR_MTIMES.get(op[4] if len(op) > 4 else "now")
+                if mt == "dest":
+                    mt = dest_mtime
+                common = os.path.join(d, "shared", "common.ebnf")
+                fs_write(common, sl.text, mt)
+                if one_process:
+                    script.append("LN\t%s\t%s" % (common, p))
+                else:
+                    os.makedirs(os.path.dirname(p), exist_ok=True)
+                    os.symlink(common, p)
             elif kind != "removed":
                 mt = GRAMMAR_MTIMES.get(op[4] if len(op) > 4 else "now")
                 if mt == "dest":
                     mt = dest_mtime
                 fs_write(p, sl.text, mt)
-            events.append(("change", "edit:%s%s" % (kind, "" if len(op) < 5 or op[4] == "now" else "@" + op[4])))
+            events.append(("change", "edit:%s%s" % ("shared" if sl.linked else kind, "" if len(op) < 5 or op[4] == "now" else "@" + op[4])))
         elif op[0] == "prefix":
             newp = prefixes[op[1] % len(prefixes)]
             events.append(("change" if newp != prefix else "nochange", "prefix"))
